@@ -701,7 +701,7 @@ func ruleLPOffload(r *Run) {
 						notIP = true
 					}
 					if c, ok := f.Cond.(*ssa.Call); ok && f.Truth {
-						if callee := staticCallee(c); callee != nil && callee.Name() == "Supports" && len(c.Call.Args) == 2 {
+						if callee := staticCallee(c); callee != nil && cname(callee) == "Supports" && len(c.Call.Args) == 2 {
 							if n, _, ok := loadOfField(c.Call.Args[1]); ok && n == "Op" {
 								supported = true
 							}
